@@ -373,6 +373,9 @@ func runMessages(c *mon.C, ms []msg, side ref.Side, nplans int, payloadMarks ...
 			c.Count(1)
 			// every other run of the raw reader: the continuation handler reads the continuation bodies itself
 			o.ContRead = o.Entry == "reader" && o.Discard == nil && (c.I+pi+len(stream))%2 == 1
+			// every third run of the raw reader: its owner validates frame headers itself (all of them are valid here)
+			// and has switched the reader's own header check off - which is no word about the UTF-8 check
+			o.SkipCheck = o.Entry == "reader" && (c.I+pi*2+ei)%3 == 1
 			// the last plan: the transport sits behind another kind of io.Reader
 			o.Wrap = ""
 			if pi == nplans-1 && nplans > 1 && len(payloadMarks) == 0 {
